@@ -364,7 +364,26 @@ func (f *Frame) applyContract(ct *Contract, fn *ssa.Function, sig *types.Signatu
 	}
 	// a pure in-repo function is a function of its arguments and the state it
 	// reads: the same uninterpreted function denotes it in specifications
-	if ct.Pure && ct.Kind == "func" && fn != nil && fn.Signature.Results().Len() == 1 && res.T != "" {
+	ghostDependent := false
+	if ct.Kind == "extern" {
+		// the value of a standard-library call on a reader/writer object is a
+		// function of its ghost state (stream position, content), which the
+		// heaps read through its fields do not capture: no link for those
+		for _, a := range args {
+			if a.Typ == nil {
+				continue
+			}
+			ms := types.NewMethodSet(a.Typ)
+			for _, name := range []string{"Write", "Read", "WriteString"} {
+				for i := 0; i < ms.Len(); i++ {
+					if ms.At(i).Obj().Name() == name {
+						ghostDependent = true
+					}
+				}
+			}
+		}
+	}
+	if ct.Pure && !ghostDependent && (ct.Kind == "func" || ct.Kind == "extern") && fn != nil && fn.Signature.Results().Len() == 1 && res.T != "" {
 		uf := "pure$" + mangle(short)
 		var srts, ts []string
 		for _, a := range args {
